@@ -29,6 +29,29 @@ def _q(x):
 
 def impl(py):
     from labella.scale import LinearScale
+    if py.get("k") == "used":
+        # a scale object with a past: ticks, formatter, nice(), ticks again.  Whatever it
+        # did before, its ticks must be those of the domain it reports NOW, i.e. equal to
+        # the ticks of a fresh scale given that domain (which the main family ties to the model)
+        s = LinearScale().domain([py["a"], py["b"]])
+        m = py["m"]
+        list(s.ticks(m))
+        s.tickFormat(m)
+        list(s.ticks())
+        if py["then"] == "nice":
+            s.nice(py["nm"])
+        elif py["then"] == "domain":
+            s.domain([py["a2"], py["b2"]])
+        elif py["then"] == "copy":
+            s = s.copy().nice(py["nm"])
+        dom = [float(x) for x in s.domain()]
+        ticks = [float(t) for t in s.ticks(m)]
+        f = s.tickFormat(m)
+        fresh = LinearScale().domain(dom)
+        fticks = [float(t) for t in fresh.ticks(m)]
+        ff = fresh.tickFormat(m)
+        return {"dom": dom, "ticks": ticks, "texts": [f(t) for t in ticks],
+                "fresh_ticks": fticks, "fresh_texts": [ff(t) for t in fticks]}
     s = LinearScale().domain([py["a"], py["b"]])
     m = py["m"]
     ticks = [float(t) for t in s.ticks(m)]
@@ -42,6 +65,8 @@ def _case(a, b, m, kind="rand"):
 
 def rebuild(c):
     py = c["py"]
+    if py.get("k") == "used":
+        return {"kind": c.get("kind", "used"), "py": py, "model": []}
     args = _q(py["a"]) + _q(py["b"]) + [10 if py["m"] is None else py["m"]]
     # 230: the exact model; 232: the admissible outcomes inside the ambiguity band (tie only)
     return {"kind": c.get("kind", "rand"), "py": py, "model": [[230] + args, [232] + args]}
@@ -111,6 +136,13 @@ def gen(rng, tier):
     for m in (None, 1, 2, 3, 5, 10, 100):
         yield _case(0.0, 1.0, m, "literal")
         yield _case(0.3, 9.7, m, "literal")
+    for _ in range(n // 10):
+        a, b, kind, m = gen_domain(rng)
+        a2, b2, _, _ = gen_domain(rng)
+        yield rebuild({"kind": "used", "py": {"k": "used", "a": float(a), "b": float(b), "a2": float(a2), "b2": float(b2),
+                                              "m": m if m is not None else rng.choice([None, 5, 10, 20]),
+                                              "nm": rng.choice([None, 2, 5, 10, 30]),
+                                              "then": rng.choice(["nice", "nice", "domain", "copy"])}})
     for _ in range(n):
         a, b, kind, m = gen_domain(rng)
         if m is None:
@@ -189,6 +221,8 @@ def compare(case, io, mo):
     if isinstance(io, dict) and "exc" in io:
         return "implementation raised %s %s" % (io["exc"], io.get("msg", ""))
     py = case["py"]
+    if py.get("k") == "used":
+        return None           # no model call: the oracle compares with a fresh scale of the reported domain
     m = mo[0]
     if m is None or m[0] != 1:
         return "model failed (out of fuel?)"
@@ -225,6 +259,13 @@ def oracle(case, io):
     if isinstance(io, dict) and "exc" in io:
         return "raised %s %s" % (io["exc"], io.get("msg", ""))
     py = case["py"]
+    if py.get("k") == "used":
+        if io["ticks"] != io["fresh_ticks"] or io["texts"] != io["fresh_texts"]:
+            return ("a scale that was used before (ticks, tickFormat, then %s) reports the domain %r but its ticks are %r; "
+                    "a fresh scale with that domain gives %r" % (py["then"], io["dom"], io["ticks"][:8], io["fresh_ticks"][:8]))
+        py = dict(py, a=io["dom"][0], b=io["dom"][1])
+        if py["a"] == py["b"]:
+            return None
     m = 10 if py["m"] is None else py["m"]
     lo, hi = sorted((F(py["a"]), F(py["b"])))
     ticks = [F(t) for t in io["ticks"]]
@@ -266,6 +307,8 @@ def nontrivial(case, io):
     if not isinstance(io, dict) or len(io.get("ticks", [])) < 2:
         return False
     py = case["py"]
+    if py.get("k") == "used":
+        py = dict(py, a=io["dom"][0], b=io["dom"][1])
     d = F(io["ticks"][1]) - F(io["ticks"][0])
     st = snap_step(d)
     two_or_five = st is not None and (st / F(10) ** math.floor(math.log10(float(st)) + 1e-9)) != 1
